@@ -144,6 +144,26 @@ def part_c(ctx):
         P.validate(ctx, traces, "sweeps")
 
 
+def part_d(ctx, cases):
+    """Sessions: the same detector and pipeline of real flux models exposed again - the same readout times from
+    another start time, then in the other mode, then back (Restart, Reschedule of PyxelPipeline): every run
+    collects rate x (its own end - its own start), whatever the detector was used for before."""
+    jobs = []
+    step = max(1, len(cases) // ctx.pick(60, 600))
+    for k, cfg in list(enumerate(cases))[::step]:
+        t0, st = cfg["times"][0], cfg["start"]
+        other = next((x for x in (st - 1, st + 1, t0 - 1, 0) if x != st and x < t0), None)
+        if other is None:
+            continue
+        ops = [["run"], ["resched", cfg["times"], other, cfg["nd"]], ["run"],
+               ["resched", cfg["times"], other, not cfg["nd"]], ["run"],
+               ["resched", cfg["times"], st, not cfg["nd"]], ["run"]]
+        jobs.append(dict(cfg=cfg, ops=ops, real=k, kind=KINDS[k % 4]))
+    traces = check.pmap(P._session_job, jobs, chunksize=4)
+    ctx.cov["recorded_sessions"] = ctx.cov.get("recorded_sessions", 0) + len(traces)
+    P.validate(ctx, traces, "sessions")
+
+
 def run(ctx):
     _, cases = P.family(ctx, "flux", required=P.CORE_ACTIONS + ["SkipDisabled"],
                         note="every composition of an interval of MAXTICK ticks into <= MAXLEN readouts x start x "
@@ -159,6 +179,7 @@ def run(ctx):
     P.validate(ctx, traces, "replay")
     part_b(ctx)
     part_c(ctx)
+    part_d(ctx, cases)
     ctx.assumptions += ["integer rates and dyadic times make the float arithmetic of the flux models exact (part A); "
                         "computed rates (dark current, shaped illumination) are compared within rtol 1e-11 (part B)",
                         "the library's illumination / load_image / load_charge / simple_conversion / simple_collection "
